@@ -14,6 +14,7 @@ from ..ref import deflate_peer
 LEVEL = 'exploration'
 SHARDED = True
 BUDGET_S = {'quick': 40, 'thorough': 300}
+CASE_CPU_LIMIT_S = None     # a case is a block of up to thousands of scheduled executions
 REQUIRED = {'all': ['oracle.schedules_judged', 'sched.lomond_line_yield_points', 'sched.context_switches', 'oracle.rsv1_frames_inflated_in_wire_order',
                     'explore.dfs_schedules', 'explore.random_schedules', 'sched.sendall_mid_yields']}
 RULE = ('programs of 2-3 threads x 1-3 send calls (send_text/binary/ping/pong, unique payloads; with and without '
